@@ -3,7 +3,8 @@ package main
 // C20 — facts about type/conversion/conversion.go: the kind switch of convertFrom and of
 // AsInt64 (which kinds share a branch and which setter they use), the arguments of the
 // recursive calls in convertSlice / convertMap / convertStruct, the name comparison and the
-// `break` of the field loop, and the size of int on this platform.
+// `break` of the field loop, the size of int on this platform, and the statements of the entry
+// points (ConvertFrom, DecodeFrom, bus/proxy.go Call2).
 
 import (
 	"fmt"
@@ -83,8 +84,10 @@ func callArgs(fn, callee string) [][]string {
 // collapsed (as normText); of a for/range statement only the header is kept (what the loop bodies
 // do is the subject of the call facts).  This is what the model of destinations that are not
 // fresh was written from: which array / map the function goes on to fill.
-func topStmts(fn string) []string {
-	f, fd := funcDecl(c20file, "", fn)
+func topStmts(fn string) []string { return topStmtsOf(c20file, "", fn) }
+
+func topStmtsOf(rel, recv, fn string) []string {
+	f, fd := funcDecl(rel, recv, fn)
 	if fd == nil {
 		return []string{"<missing " + fn + ">"}
 	}
@@ -115,6 +118,12 @@ func topStmts(fn string) []string {
 }
 
 func factsC20() {
+	// the entry points (Conv.enter): ConvertFrom and DecodeFrom go straight to convertFrom, DecodeFrom
+	// on a freshly allocated value of the remote type; Call2 reads the reply directly when the
+	// advertised signature is the caller's and otherwise hands it to DecodeFrom, whose error it returns
+	fmt.Fprintf(&out, "Definition f_c20_convertfrom_stmts : list string := %s.\n", strList(topStmts("ConvertFrom")))
+	fmt.Fprintf(&out, "Definition f_c20_decodefrom_stmts : list string := %s.\n", strList(topStmts("DecodeFrom")))
+	fmt.Fprintf(&out, "Definition f_c20_call2_stmts : list string := %s.\n", strList(topStmtsOf("bus/proxy.go", "proxy", "Call2")))
 	fmt.Fprintf(&out, "Definition f_c20_slice_stmts : list string := %s.\n", strList(topStmts("convertSlice")))
 	fmt.Fprintf(&out, "Definition f_c20_map_stmts : list string := %s.\n", strList(topStmts("convertMap")))
 	emitN("f_c20_int_size", uint64(strconv.IntSize))
